@@ -221,6 +221,15 @@ def gen(cls, idx, rng, tier):
         dead = set(par.wrap_links(w, h)) if rng.random() < .6 else set()
         for _ in range(rng.randint(0, 6)):
             dead.add((rng.randrange(w), rng.randrange(h), rng.randrange(6)))
+        if rng.random() < .5:
+            # a worn machine: 3-12% of the links broken (mostly both ways),
+            # so that a tree of hundreds of chips needs many repairs at once
+            for _ in range(int(w * h * 3 * rng.uniform(.03, .12))):
+                x, y, l = rng.randrange(w), rng.randrange(h), rng.randrange(6)
+                dead.add((x, y, l))
+                if rng.random() < .8:
+                    nx, ny = par.neighbour(w, h, x, y, l)
+                    dead.add((nx, ny, (l + 3) % 6))
         m = dict(w=w, h=h, dead_chips=[], dead_links=sorted(dead))
     else:
         m = par.gen_faults(rng, cls, side)
